@@ -4,6 +4,7 @@
      m[:fam];<graph6>;...   canonical graph (graph6) of canon_graph, the relabellings are ignored
      o[:fam];<graph6>;...   "ok"   (oracle-only case: nothing to compare)
      c;<n>;all              "ok"   (oracle-only case)
+     x...;...;...  k...;...;...   "ok"   (oracle-only cases of the hardening pass)
      r[:fam];<graph6>;cls=<c>|<c>|.. picks=<k>,<k>,..
                             the partitions after each refinement of refine_run: projected the cells
                             as sets "0,3|1,2" separated by " / ", strict (after " ## ")
@@ -107,6 +108,14 @@ let () =
                ^ " ## " ^
                String.concat " / " (List.map (function Some p -> show_part p | None -> "model-out-of-fuel") res)
              | 'o' | 'c' -> "ok"
+             | 'x' ->
+               (* same validity rule as the harness: the first token names the scenario *)
+               (match List.filter (fun s -> s <> "") (String.split_on_char ' ' rest) with
+                | ("prov" | "reuse" | "alias" | "hidden") :: _ -> "ok"
+                | _ -> "badcase")
+             | 'k' ->
+               if List.exists (fun t -> String.length t > 4 && String.sub t 0 4 = "cls=" && t <> "cls=-")
+                   (String.split_on_char ' ' rest) then "ok" else "badcase"
              | _ -> "badcase")
           | _ -> "badcase"
         with Failure m -> "badcase " ^ m | Not_found -> "badcase" | Invalid_argument _ -> "badcase"
